@@ -20,7 +20,7 @@ from harness import common, gendoc, modgen, runmodel
 from harness.common import Sym
 
 STYLES = ['auto', 'google', 'freeform']
-OPTIONS = [None, '+IGNORE_WANT', '+SKIP', '-ELLIPSIS', '+IGNORE_WHITESPACE']
+OPTIONS = [None, '+IGNORE_WANT', '+SKIP', '-ELLIPSIS', '+IGNORE_WHITESPACE', 'env:+IGNORE_WANT', 'env:+SKIP', '+IGNORE_WANT,-ELLIPSIS', 'env:-NORMALIZE_WHITESPACE,+IGNORE_WANT']
 
 
 # ---------------------------------------------------------------------------
@@ -108,7 +108,10 @@ def front_ends(path, style, options):
     cmd_p = [sys.executable, '-m', 'pytest', '-v', '-p', 'no:cacheprovider', '--xdoctest', '--xdoctest-style=' + style,
              '-p', 'no:randomly', os.path.basename(path)]
     cmd_n = [sys.executable, '-m', 'xdoctest', os.path.basename(path), 'all', '--style=' + style]
-    if options:
+    if options and options.startswith('env:'):
+        # the documented third way to give default options: the environment (XDOCTEST_OPTIONS), the same for both front ends
+        env['XDOCTEST_OPTIONS'] = options[4:]
+    elif options:
         cmd_p.append('--xdoctest-options=' + options)
         cmd_n.append('--options=' + options)
     p = subprocess.run(cmd_p, cwd=cwd, env=env, stdout=subprocess.PIPE, stderr=subprocess.STDOUT, timeout=300)
